@@ -29,7 +29,7 @@ def main(short=False):
             avail.append(p)
         except ImportError:
             pass
-    runs = 6 if short else 48
+    runs = 6 if short else 120
     for p in avail:
         c1, m1 = _digests(p, runs, 16)
         c2, m2 = _digests(p, runs, 3)
